@@ -282,6 +282,67 @@ func ruleGEffLegacy(c *Ctx) {
 			c.Fail("G-eff", "extra/"+shorten(k, 120), gotPos[k], "the working copy is modified in a way the legacy algorithm does not specify: "+k)
 		}
 	}
+	// order: a store that replaces a collection of the working copy by a re-slice with a non-zero lower
+	// bound renumbers its elements; every step that indexes or ranges over that collection speaks of the
+	// original positions and must not be reachable from that store
+	nOrder := 0
+	for _, b := range fn.Blocks {
+		for si, ins := range b.Instrs {
+			st, ok := ins.(*ssa.Store)
+			if !ok || rootIsLocal(st.Addr) {
+				continue
+			}
+			sl, isSl := st.Val.(*ssa.Slice)
+			if !isSl || sl.Low == nil {
+				continue
+			}
+			if k, isK := constInt(sl.Low); isK && k.Sign() == 0 {
+				continue
+			}
+			coll := strings.TrimPrefix(w.term(st.Addr), "&")
+			if coll != strings.TrimPrefix(w.term(sl.X), "*") && !strings.HasPrefix(w.term(sl.X), coll) {
+				continue
+			}
+			nOrder++
+			reach := map[*ssa.BasicBlock]bool{}
+			work := append([]*ssa.BasicBlock{}, b.Succs...)
+			for len(work) > 0 {
+				x := work[0]
+				work = work[1:]
+				if reach[x] {
+					continue
+				}
+				reach[x] = true
+				work = append(work, x.Succs...)
+			}
+			bad := ""
+			for _, b2 := range fn.Blocks {
+				for ei, ins2 := range b2.Instrs {
+					st2, ok := ins2.(*ssa.Store)
+					if !ok || st2 == st || rootIsLocal(st2.Addr) {
+						continue
+					}
+					t2 := strings.TrimPrefix(w.term(st2.Addr), "&")
+					uses := strings.HasPrefix(t2, coll+"[")
+					if g, okg := blockGuard(w, b2); okg {
+						for _, cj := range g {
+							for _, l := range cj {
+								if l.Atom == "i in "+coll {
+									uses = true
+								}
+							}
+						}
+					}
+					if uses && (reach[b2] || (b2 == b && ei > si)) {
+						bad = t2
+					}
+				}
+			}
+			c.Check(bad == "", "G-eff", "order/"+shorten(coll, 80)+"-renumbered-last", st.Pos(), "no step that addresses elements of "+coll+" by position runs after the collection was cut down to the signed element",
+				"the working copy's "+coll+" is re-sliced from a non-zero position before "+bad+" is written: that step addresses elements by their original position and now hits the wrong element (or none)")
+		}
+	}
+	c.Covered["G-eff:renumbering_stores"] = nOrder
 	if len(gotG) < 9 {
 		c.Undecided("G-eff", "min-instances", fn.Pos(), fmt.Sprintf("only %d distinct effects found (expected the steps of the algorithm)", len(gotG)))
 	}
